@@ -165,6 +165,35 @@ class Interp(EngineBase):
                 and isinstance(e.generators[0].target, ast.Name) and e.elt.id == e.generators[0].target.id:
             src = self.ev(e.generators[0].iter)
             return self.to_list(src, e)
+        if len(e.generators) == 1 and not e.generators[0].ifs and isinstance(e.generators[0].target, ast.Name):
+            # [f(x) for x in L]: the image multiset of L under f (f must be effect-free: evaluated on a bound variable)
+            src = self.ev(e.generators[0].iter)
+            if isinstance(src, ListObj):
+                self.bag_facts(src)
+                name = e.generators[0].target.id
+                saved = self.st.locals.get(name, NotImplemented)
+                x = z3.Int(fresh_name('mx'))
+                self.st.locals[name] = self.elem_value(src, x)
+                self.guards.append(z3.Select(src.cnt, x) > 0)
+                n_obl = len(self.obligations)
+                try:
+                    fx = self.as_int_term(self.ev(e.elt))
+                finally:
+                    self.guards.pop()
+                    if saved is NotImplemented:
+                        self.st.locals.pop(name, None)
+                    else:
+                        self.st.locals[name] = saved
+                res = fresh_list('image', 'str')
+                y = z3.Int(fresh_name('my'))
+                self.st.assume(res.n == src.n)
+                self.st.assume(z3.ForAll([x], z3.Implies(z3.Select(src.cnt, x) > 0, z3.Select(res.cnt, fx) >= 1)))
+                xw = z3.Int(fresh_name('mw'))
+                self.st.assume(z3.ForAll([y], z3.Implies(z3.Select(res.cnt, y) > 0, z3.Exists(
+                    [xw], z3.And(z3.Select(src.cnt, xw) > 0, y == z3.substitute(fx, (x, xw)))))))
+                self.bag_facts(res)
+                res.image_of = (src, x, fx)
+                return res
         raise OutOfSubset(f"list comprehension at line {e.lineno}")
 
     def ev_DictComp(self, e):
@@ -261,6 +290,8 @@ class Interp(EngineBase):
             return Sym('bool', base.triggered)
         if isinstance(base, Opaque) and base.what.startswith('path'):
             return Opaque('path')
+        if isinstance(base, Opaque) and base.what.startswith('module:') and attr in ('algorithms', 'readwrite'):
+            return Opaque(base.what + '.' + attr)
         if isinstance(base, (ListObj, DictObj, Record, PyList, Opaque, TupleV)):
             return BoundMethod(base, attr)
         if isinstance(base, str):
@@ -296,6 +327,26 @@ class Interp(EngineBase):
         return self.getitem(base, idx, e)
 
     def getitem(self, base, idx, node):
+        if isinstance(base, BoundMethod) and isinstance(base.recv, Sym) and base.recv.cls == 'Graph' and base.name in ('nodes', 'pred'):
+            # assumed (networkx): g.nodes[x] is x's attribute dict; g.pred[x] maps each predecessor of x to the edge's attribute dict
+            g = base.recv.t
+            x = self.as_int_term(idx)
+            NODE = z3.Function('nx_node', I, I, B)
+            EDGE = z3.Function('nx_edge', I, I, I, B)
+            self.check_or_raise(NODE(g, x), 'KeyError', node, f"graph.{base.name}[node]")
+            if base.name == 'nodes':
+                r = Sym('ref', z3.Function('nx_nodeattr', I, I, I)(g, x), 'NodeAttr')
+                self.st.assume(r.t > 0)
+                return r
+            p = z3.Int('nx_p')
+            EA = z3.Function('nx_edgeattr', I, I, I, I)
+            d = DictObj(z3.Lambda([p], EDGE(g, p, x)), z3.Function('nx_indeg', I, I, I)(g, x), 'ref',
+                        vals=z3.Lambda([p], EA(g, p, x)), vcls='EdgeAttr')
+            d.frozen = True
+            q = z3.Int(fresh_name('eq'))
+            self.st.assume(z3.ForAll([q], z3.Implies(EDGE(g, q, x), EA(g, q, x) > 0)))
+            self.st.assume(d.nk >= 0)
+            return d
         if isinstance(base, Sym) and base.kind == 'ref' and base.cls == 'NpArr':
             LEN, ATF = z3.Function('np_len', I, I), z3.Function('np_at', I, I, R)
             if isinstance(idx, tuple) and idx[0] == 'npmask_gt':
